@@ -6,4 +6,8 @@ EXTENDS Folder, Json
 
 Emit == (phase = "done" /\ WellFormed) =>
           PrintT(<<"BEH", ToJson([n |-> n, pairs |-> pairs, order |-> SemOrder, main |-> SemMainOut])>>)
+
+(* every graph, ill-formed ones included (repeated ends, cycles): what the reader's walk makes of it *)
+EmitAll == phase = "done" =>
+          PrintT(<<"ALL", ToJson([n |-> n, pairs |-> pairs, order |-> order, main |-> mainout, wf |-> WellFormed])>>)
 =============================================================================
